@@ -35,7 +35,7 @@ def run_one(sid):
         summ = [l for l in out.split("\n") if l.startswith("[" + pid)]
         ev = {}
         try:
-            ev = json.load(open(os.path.join(VERIF, "evidence", f"{pid}.json")))
+            ev = json.load(open(os.path.join(VERIF, ".cache", "evidence_alt", f"{pid}.json")))
         except Exception:  # noqa: BLE001
             pass
         cov = ev.get("coverage", {})
